@@ -1,18 +1,37 @@
 # CPU_OFF and COMMON_ASSUME are injected by props.py
 SPEC = {
     "bins": [
+        # black-box: default build in the quick tier; purego build and GODEBUG cpu.* switches in the thorough tier
         {"name": "c06", "pkg": "./zz_verif/c06", "run": ".", "configs": CPU_OFF, "quick_configs": ["default"],
          "shards": {"quick": 2, "thorough": 4}},
+        # white-box: generic Go, legacy assembly and BMI2/ADX assembly side by side in one process
         {"name": "c06-wb-x25519", "pkg": "./dh/x25519", "run": "^TestVerifC06", "whitebox": True, "shards": {"quick": 1, "thorough": 8}},
         {"name": "c06-wb-x448", "pkg": "./dh/x448", "run": "^TestVerifC06", "whitebox": True, "shards": {"quick": 1, "thorough": 8}},
     ],
-    "rule": "TODO",
-    "assumptions": COMMON_ASSUME,
+    "rule": "shared/*: case = (scalar k, peer value u) with k from {0, 1, 2^254 resp. 2^447, all-ones, clamping-sensitive first/last octets, single bit, random} and u from "
+            "{0, 1, p-1, p, p+1, the low-order values, their non-canonical aliases (+p where it fits, bit 255 for X25519), p+small, all-ones, small, near-p, limb-structured, twist points, curve points, "
+            "random non-canonical, random}; non-trivial = k is not 'random' or u is not 'random'/'curve' (i.e. an edge, non-canonical, low-order or twist value). "
+            "consequence/*: case = (KEM, key seed, encapsulation seed, u, operation in {decapsulate, encapsulate, auth-decapsulate}); non-trivial = u is an edge/low-order/non-canonical/twist value. "
+            "whitebox/*.backends: (k, u) evaluated on generic Go, legacy assembly and BMI2/ADX assembly; non-trivial = u limb-structured, near p or next to a low-order value. "
+            "whitebox/*.primitives: operands of ladderStep/diffAdd/double/mulA24 drawn by vlib.FieldOperand (limb edges, near-modulus, unreduced); non-trivial = at least one operand is not uniform. "
+            "Distinct by FNV-64 of (sub-check, k, u, ...).",
+    "assumptions": COMMON_ASSUME + [
+        "ref/mont (math/big ladder written from RFC 7748 section 5, self-tested against the RFC 7748 5.2 and 6 vectors and the 1/1000-iteration vectors) is the oracle for both functions; crypto/ecdh is a second oracle for X25519",
+        "the generic back-end of the full ladder is evaluated through a 10-line copy of ladderMontgomery in the white-box overlay (checked at run time to agree with the package's own function); "
+        "the field arithmetic of math/fp25519 and math/fp448 underneath toAffine follows that package's own dispatch (switched only by the GODEBUG/purego configurations of the thorough tier)",
+    ],
     "budget": {"quick": 900, "thorough": 3600},
 }
 
 MANIFEST = {
-    "technique": "TODO",
-    "text": "TODO",
-    "note": "TODO",
+    "technique": "property-based testing (rapid): differential against an independent math/big RFC 7748 ladder and crypto/ecdh on edge-biased (scalar, u) pairs; metamorphic agreement of both parties; "
+                 "consequence checks on the KEMs built on the functions; white-box overlays running every case and every ladder primitive on the generic, legacy-assembly and BMI2/ADX back-ends in one process; "
+                 "the black-box binary is repeated under purego and GODEBUG cpu.* switches in the thorough tier",
+    "text": "Generated-input search over (k, u): Shared's output equals the reference function, the flag equals (output != 0), KeyGen equals the function at the base point (which pins the precomputed Joye-ladder table), "
+            "both parties derive the same secret, and X25519 agrees with crypto/ecdh including the error on an all-zero result. u is biased to the values the property names: 0, 1, p-1, p, p+1, the order-8 values and "
+            "their non-canonical aliases, 2^255-19+small, all-ones, twist points. Consequences: the five kem/hybrid X-schemes, HPKE DHKEM(X25519), DHKEM(X448) and X25519Kyber768Draft00 return an error from "
+            "Decapsulate / Encapsulate / AuthDecapsulate exactly when the reference output is zero; X-Wing (kem/xwing and hpke) never does. White-box: each (k,u) and each of ladderStep, diffAdd, double, mulA24 "
+            "with limb-structured operands is evaluated on the three back-ends (the assembly consults the package variable hasBmi2Adx, which the overlay flips) and compared with math/big, projectively where the result is a projective point. "
+            "Exploration is the right level: 2^510 resp. 2^896 inputs, exact oracle per case.",
+    "note": "trusts math/big and crypto/ecdh; arm64 back-ends cannot be executed on this machine; never establishes absence",
 }
